@@ -121,6 +121,20 @@ def run(ctx):
     # discovered file, and only accepted modules are imported (Model/Discovery.importedModules, C14_import_gate)
     from harness import corr_discovery
     corr_discovery.run(ctx, n=40 if ctx.quick() else 400, module_gate_only=True)
+    # --test patterns inside tests_from_suite (with every level option) and --layer patterns inside Filter.global_setup
+    from harness import corr_suites
+    orig_violation = ctx.violation
+
+    def violation(desc, replay, signature=None):
+        # D14 (--all vs levels above sys.maxsize) is a finding of C09's level clause, not of the filter predicate
+        if signature != "all-level-above-maxsize":
+            orig_violation(desc, replay, signature)
+    ctx.violation = violation
+    try:
+        corr_suites.run_suites(ctx)
+        corr_suites.run_layers(ctx)
+    finally:
+        ctx.violation = orig_violation
 
 
 def cli_defaults(ctx):
